@@ -498,8 +498,10 @@ def property_case(rng):
     decl_b, key_b = rng.choice(PROP_VARIANTS)
     name = dyn.fresh("Pr")
     alias = rng.choice(["", "alias='combo_out', "])
-    src = ("class %s(Schema):\n    a: int\n    %s\n\n    @property\n    @Field(%sdependencies=['a', 'b'])\n"
-           "    def combo(self) -> str:\n        return '%%s|%%s' %% (self.a, self.b)\n" % (name, decl_b, alias))
+    # the property itself may be hidden from the mapping depending on its (recomputed) value
+    hide = rng.choice(["", "", "no_output=lambda v: v.startswith('40') or v.startswith('3'), "])
+    src = ("class %s(Schema):\n    a: int\n    %s\n\n    @property\n    @Field(%s%sdependencies=['a', 'b'])\n"
+           "    def combo(self) -> str:\n        return '%%s|%%s' %% (self.a, self.b)\n" % (name, decl_b, alias, hide))
     dyn.declare(src)
     ops = []
     for _ in range(rng.randint(1, 5)):
@@ -508,7 +510,7 @@ def property_case(rng):
         how = rng.choice(["item", "attr", "update", "setdefault"])
         key = tgt if tgt == "a" else rng.choice([key_b, "b"])
         ops.append((how, tgt, key, v))
-    return dict(cls=name, src=src, out="combo_out" if alias else "combo", ops=ops)
+    return dict(cls=name, src=src, out="combo_out" if alias else "combo", ops=ops, hide=bool(hide))
 
 
 def property_oracle(case):
@@ -537,6 +539,11 @@ def property_oracle(case):
             continue
         got_item = dict.get(s, out, "<absent>")
         got_attr = getattr(s, "combo", "<absent>")
+        if case.get("hide") and (want.startswith("40") or want.startswith("3")):
+            if got_item != "<absent>" or got_attr != want:
+                return ("step %d %r: the recomputed property value %r is not output, but the mapping holds %r and the attribute reads %r"
+                        % (n, (how, key, v), want, got_item, got_attr))
+            continue
         if got_item != want or got_attr != want:
             return ("step %d %r: the property depends on the changed field but holds %r (mapping) / %r (attribute); "
                     "recomputed it is %r" % (n, (how, key, v), got_item, got_attr, want))
@@ -548,7 +555,7 @@ def main(tier, seed):
     res = core.Result(PID, tier, seed)
     core.prove(res, PID)
     rng = random.Random(seed * 139 + 7)
-    ncls, per = (220, 10) if tier == "quick" else (2500, 16)
+    ncls, per = (220, 10) if tier == "quick" else (800, 12)
     cases, srcs = gen_cases(rng, ncls, per)
     mism, alias = run_suite(res, cases, "mutations")
     outs = core.pool_map(invariant_oracle, cases)
